@@ -111,7 +111,7 @@ def job_factory(res):
     fn = find_fn(mod, 'makePSFromHDF5'); res.funcs[fn] = fn_lines(mod, fn)
     def run(kind):
         def reader(ex, st, fr, a, ins):
-            st.events.append(('readPhaseSpace', kind))
+            st.events.append(('readPhaseSpace', kind)); st.extra['reader_args'] = list(a)
             if kind == 'ok': ex.store(st, a[0], I64, 0x1234560) if isinstance(a[0], int) else None; return None
             obj = ex.malloc(st, 64); vt = ex.malloc(st, 64); ex.store(st, obj, I64, vt)
             raise CxxThrow(obj, {'std': '_ZTISt13runtime_error', 'h5': '_ZTIN2H59ExceptionE', 'other': '_ZTIi'}[kind])
@@ -135,6 +135,18 @@ def job_factory(res):
                           detail='' if ok else str([(p.kind, getattr(p, 'why', '')) for p in paths][:2])))
     ex, paths, dm = run('ok')
     okp = [p for p in paths if p.kind == 'done']
+    # the reader is called with the factory's own arguments, each in its place: axis limits (position, then energy), charge, current, the two axis scales, the requested record
+    for p_ in okp:
+        ra = p_.extra.get('reader_args') or []
+        names = ['qmin', 'qmax', 'pmin', 'pmax', None, 'Qb', 'Ib', 'bl', 'dE']
+        if len(ra) < 12: raise Unsupported('readPhaseSpace call with %d operands' % len(ra))
+        bad = [z3.BoolVal(False)]
+        for i, nm in enumerate(names):
+            if nm is None: continue
+            v = ra[2 + i]; bad.append((v if z3.is_expr(v) else z3.RealVal(str(v))) != z3.Real(nm))
+        stp = ra[11]; bad.append((stp if z3.is_expr(stp) else z3.BitVecVal(stp, 64)) != z3.BitVec('step', 64))
+        prove(res, 'makePSFromHDF5 hands the reader its own arguments in their places: qmin, qmax, pmin, pmax, charge, current, position scale, energy scale, record number', p_.pc, z3.Or(*bad), key='factory-arguments',
+              cex_fn=lambda m: {'replay': 'structural', 'operands': [str(x)[:30] for x in ra[2:12]]})
     res.obs.append(Ob('makePSFromHDF5: a phase space delivered by the reader is returned as it is (no message, not replaced)', 'holds' if okp and all(not any('basic_ostream' in dm.get(e[0], '') for e in p.events if isinstance(e[0], str)) for p in okp) else 'violated', key='factory-pass'))
 
 def job_loader_args(res):
